@@ -279,9 +279,13 @@ fn acting_calls(pl: &Plan, prefix: &str, subset: bool) -> Vec<(String, Arg, Opti
         }
     }
     if let (Some(e), Some(q)) = (pl.p1_extra.first(), pl.p2.get(1)) {
+        // (an empty symlink TARGET is not issued: the target is documented to be taken relative to the link's directory and
+        // whether "" then means that directory or is an error belongs to C10, not to the macro)
         for mac in ["copyfile", "symlink"] {
             v.push((mac.to_string(), e.clone(), Some(q.clone()), vec![], 0, mcall(mac, prefix, e, Some(q), &[], 0)));
-            v.push((mac.to_string(), q.clone(), Some(e.clone()), vec![], 0, mcall(mac, prefix, q, Some(e), &[], 0)));
+            if mac == "copyfile" {
+                v.push((mac.to_string(), q.clone(), Some(e.clone()), vec![], 0, mcall(mac, prefix, q, Some(e), &[], 0)));
+            }
         }
     }
     v
